@@ -62,3 +62,14 @@ Example C36_nonvacuous :
   length (fst (run_fixed sim0 ops)) = 33%nat /\
   recover (s_blocks (snd (run_fixed sim0 ops))) (replay db0 (fst (run_fixed sim0 ops))) = VOk 5 2 1 2.
 Proof. vm_compute. repeat split; reflexivity. Qed.
+
+(* non-vacuity of the re-finalisation branch (handleFinalisedBlock returns early when a later
+   round finalises the finalised head again): rounds 1..3 finalise block 1, a scheduled change
+   stays pending on a descendant meanwhile, is applied by the finalisation of block 3, and block 3
+   is finalised again in round 1 of the new set *)
+Example C36_nonvacuous_refinalise :
+  let ops := [Imp 0 DNone; Fin 1 1; Fin 1 2; Imp 1 (DSched 1); Fin 1 3; Imp 2 DNone; Fin 3 4; Fin 3 1] in
+  scenario_valid ops = true /\
+  length (fst (run_fixed sim0 ops)) = 33%nat /\
+  recover (s_blocks (snd (run_fixed sim0 ops))) (replay db0 (fst (run_fixed sim0 ops))) = VOk 3 1 1 1.
+Proof. vm_compute. repeat split; reflexivity. Qed.
